@@ -90,6 +90,9 @@ def getOp (j : Json) : Except String (DqOp Json) := do
   | [Json.str "extend", vs] => pure (.extend (← getArr vs))
   | [Json.str "del", i] => pure (.del (← getNat i))
   | [Json.str "insert", i, v] => pure (.insert (← getNat i) v)
+  | [Json.str "seti", i, v] => pure (.setI (← getInt i) v)
+  | [Json.str "deli", i] => pure (.delI (← getInt i))
+  | [Json.str "inserti", i, v] => pure (.insertI (← getInt i) v)
   | _ => pure (.keep (← getEdit j))
 
 /-- the float zero, default of `padval` and of `zero` -/
